@@ -57,6 +57,13 @@ def grid(rnd, quick):
                 out.append(dict(id="lc-%d" % k, role="acceptor", cause=cause, phase=phase, inIn=inin, inOut=0, buf=buf, slowCb=False, partial=False,
                                 cause2="", gapMs=0, errDelayMs=0, blockCb=True))
                 k += 1
+    # the application's error callback stops the session at the first error it is told about (which may be the failed send of
+    # a message the session sends itself once the connection has gone): everything still winds down, later calls return
+    for cause in ("peer_close", "peer_reset", "write_error"):
+        for buf in ((0, 10) if quick else (0, 1, 10)):
+            out.append(dict(id="lc-%d" % k, role="acceptor", cause=cause, phase="logged", inIn=1, inOut=1, buf=buf, slowCb=False, partial=False,
+                            cause2="", gapMs=0, errDelayMs=0, blockCb=False, errStop=True))
+            k += 1
     # the application turns the client away inside the new-client callback (before the handler runs), the peer gone already or not
     for cause in ("handler_stop", "local_close"):
         for c2 in ("peer_close", "peer_reset", ""):
